@@ -562,6 +562,11 @@ def c11_nested_setup(col, rng, k, jobref=None):
 def job_hist11(j):
     rng = random.Random(j["seed"])
     col = Collector()
+    if j.get("nested_only"):
+        # only the scenario "a DAG with a setup node called inside another DAG" (re-used by other properties' checks)
+        for h in range(j["n_histories"]):
+            c11_nested_setup(col, rng, h, jobref=j)
+        return col.result()
     for h in range(j["n_histories"]):
         c11_history(col, rng, h, jobref=j)
         if h % 5 == 4:
